@@ -19,6 +19,27 @@ def builtin_names():
     return BUILTIN_NAMES
 
 
+def line_conventions(text, p):
+    """(line, column, source line) of offset p under each way of cutting a text into lines that an implementation may
+    consistently use: (A) lines end at "\\n" (what Position.line_col documents); (B) str.splitlines() boundaries.
+    The two agree unless the text holds a lone \\r, \\v, \\f, \\x1c-\\x1e, \\x85, U+2028 or U+2029."""
+    n = len(text)
+    ls = text.rfind("\n", 0, p) + 1
+    le = text.find("\n", p)
+    out = [(1 + text.count("\n", 0, p), p - ls + 1, text[ls:(n if le == -1 else le)])]
+    start, lineno = 0, 1
+    for ln in text.splitlines(keepends=True):
+        body = ln.rstrip("\r\n\x0b\x0c\x1c\x1d\x1e\x85\u2028\u2029")
+        if start <= p < start + len(ln) or (p == n and start + len(ln) == n and body == ln):
+            out.append((lineno, p - start + 1, body))
+            break
+        start += len(ln)
+        lineno += 1
+    else:
+        out.append((lineno, p - start + 1, ""))
+    return out
+
+
 def failure_invariants(err, text, k, rule_names):
     from pest.exceptions import error_context
 
@@ -47,26 +68,24 @@ def failure_invariants(err, text, k, rule_names):
         bad.append(f"render-raises:{type(exc).__name__}")
         return sorted(set(bad))
     if p >= 0 and "furthest_pos-out-of-range" not in bad:
-        want_line = 1 + text.count("\n", 0, p)
-        want_col = p - (text.rfind("\n", 0, p) + 1) + 1
-        ls = text.rfind("\n", 0, p) + 1
-        le = text.find("\n", p)
-        want_src = text[ls:(n if le == -1 else le)]
+        convs = line_conventions(text, p)
         try:
             line, lineno, col = error_context(text, p)
-            if (lineno, col) != (want_line, want_col):
+            at = [c for c in convs if (lineno, col) == (c[0], c[1])]
+            if not at:
                 bad.append("error_context-line-col")
-            if line.rstrip() != want_src.rstrip():
+            elif not any(line.rstrip() == c[2].rstrip() for c in at):
                 bad.append("error_context-line")
         except Exception as exc:  # noqa: BLE001
             bad.append(f"error_context-raises:{type(exc).__name__}")
         # the message must show L:C of p and the source line of p - wherever and however it lays them out
         shown = [(int(a), int(b)) for a, b in re.findall(r"(?<![\d:])(\d+):(\d+)(?![\d:])", s)]
+        at = [c for c in convs if (c[0], c[1]) in shown]
         if not shown:
             bad.append("message-has-no-location")
-        elif (want_line, want_col) not in shown:
+        elif not at:
             bad.append("message-line-col")
-        elif want_src.strip() and want_src.rstrip() not in s:
+        elif not any((not c[2].strip()) or c[2].rstrip() in s for c in at):
             bad.append("message-source-line")
     return sorted(set(bad))
 
@@ -75,6 +94,7 @@ class C13(engine.Check):
     prop = "C13"
     modes = modes.MODES
     need_model = False
+    nontrivial_is_reject = True   # the property is about rejected inputs
 
     def observe(self, parser, mode, spec, rule, text, k):
         from pest import PestParsingError
@@ -112,8 +132,25 @@ def _names(spec):
     return spec.cache["names"]
 
 
+SEPARATORS = ("\r", "\x0b", "\x0c", "\x1c", "\x1d", "\x1e", "\x85", "\u2028", "\u2029", "\t", "\u00a0")
+
+
+def separator_specs(tier: str):
+    """Multi-line inputs that also hold one of the characters str.splitlines() cuts at (and two it does not)."""
+    S = families.S
+    any_ = ("ref", "ANY")
+    rules = (
+        ("r", "", ("seq", (("star", ("seq", (("not", S("b")), any_))), S("c")))),
+        ("line", "", ("star", S("a"))),
+        ("q", "", ("seq", (("ref", "line"), ("star", ("seq", (S("\n"), ("ref", "line")))), ("ref", "EOI")))),
+        ("t", "@", ("seq", (any_, any_, S("c")))),
+    )
+    L = 4 if tier == "quick" else 5
+    return [engine.Spec(rules, ("r", "q", "t"), tuple(gast.strings_upto("ab\n" + sep, L)), "all", f"separators({sep!r},L={L})") for sep in SEPARATORS]
+
+
 def specs(tier: str):
-    return families.c01_specs(tier, kmode="all", extra_sigma="\né", max_inputs=45 if tier == "quick" else 160, extra_trivia=("cm_pred",), sigma_core="aA")
+    return separator_specs(tier) + families.c01_specs(tier, kmode="all", extra_sigma="\né", max_inputs=45 if tier == "quick" else 160, extra_trivia=("cm_pred",), sigma_core="aA")
 
 
 def run(tier: str) -> int:
@@ -124,7 +161,8 @@ def run(tier: str) -> int:
                  "alphabet": "a A + trivia symbols + newline + é", "start_positions": "every k in 0..len(text)"}],
         rule=families.c01_rule_text() + "; input alphabet extended by '\\n' and 'é' (multi-line, non-ASCII), every start position. Oracle on every rejected (grammar, input, start_pos) in four modes: "
              "furthest_pos == -1 or start_pos <= furthest_pos <= len; keys of furthest_expected/unexpected are rules of the grammar or built-ins and labels are strings; str(), detailed_message(), expected(), expected_labels() do not raise; "
-             "for furthest_pos >= 0 the L:C in the message and error_context() equal (1 + newlines before p, 1 + distance from the last newline) and the source line shown is line L (up to trailing whitespace). "
+             "for furthest_pos >= 0 the L:C in the message and error_context() equal (1 + newlines before p, 1 + distance from the last newline) and the source line shown is line L (up to trailing whitespace) - "
+             "or the same three under str.splitlines() boundaries, consistently; plus the separators family: three rules over every string up to length L over {a, b, newline, s} for s in \\r \\v \\f \\x1c \\x1d \\x1e \\x85 U+2028 U+2029 \\t U+00A0. "
              "Non-trivial: the case was rejected (those are the cases this property is about)",
         validate_model=False, still_violates=replay_case,
     )
